@@ -363,3 +363,7 @@ Fixpoint parts_shape (cts : list ctype) (ps : list lpart) : Prop :=
   | CtFixed k :: r => match ps with LPRaw _ d :: ps' => length d = k /\ parts_shape r ps' | _ => False end
   | ct :: r => match ps with LPName _ comp :: ps' => comp = is_comp ct /\ parts_shape r ps' | _ => False end
   end.
+
+(* items written with compression disabled: every chunk is the plain wire form *)
+Definition part_plain (p : lpart) : Prop := match p with LPName ch _ => nc_sh ch = None | LPRaw _ _ => True end.
+Definition rr_plain (r : lrr) : Prop := nc_sh (lr_owner r) = None /\ Forall part_plain (lr_parts r).
